@@ -1,19 +1,62 @@
 # orchestrator configuration of the C10 check (loaded by tools/props.py)
 from stack import FULL_STACK, FULL_DEPS
 
-ENABLED = False
-
 SPEC = dict(
     pkg="./harness/c10",
     instrument=FULL_STACK + ["./p2p/net/conngater"],
     deps=FULL_DEPS,
     level="exploration",
-    level_text="TBD",
-    level_note="TBD",
-    technique="TBD",
+    level_text=("seeded search over histories of Block*/Unblock* calls on the real BasicConnectionGater (peer, address in 4- and "
+                "16-byte form, canonical IPv4/IPv6 subnets incl. the IPv4-mapped spelling), each optionally cut by a process stop "
+                "right after its datastore mutation or failed by a datastore I/O error, clean restarts and failing loads, "
+                "interleaved (stratum full-stack) with rounds of concurrent dials in both directions between three real nodes on "
+                "simnet whose IP addresses sit on the first/last/just-outside addresses of the blocked subnets (IPv4, IPv6, "
+                "IPv4-mapped source spelling), G dialling through /ip4, /ip6, /ip6/::ffff:a.b.c.d, /dns4, /dns6, /dns forms "
+                "(fake resolver) and decoy addresses, or (stratum hooks-direct) with a sweep of every Intercept* hook over every "
+                "pool IP in every textual form after every call. Compared with the acknowledged rule set (what the return values "
+                "told the caller). Sampling, not proof."),
+    level_note=("trusted: testing/synctest, simnet's TCP model, simdisk's durability model (a mutation that was applied is "
+                "durable; the stop falls right after it), go-datastore's MapDatastore/namespace/query code, go-multiaddr and "
+                "net.IPNet.Contains (used by the reference model for matching). Rules change only at quiescent instants between "
+                "dial rounds. NOT simulated: the QUIC / WebTransport / WebRTC listeners' own InterceptAccept/InterceptSecured "
+                "call sites (their address forms reach the real gater in the hooks-direct stratum only), relayed connections, "
+                "an inbound TCP remote in /ip6/::ffff: form (Go's net.TCPAddr cannot produce it)"),
+    technique=("deterministic simulation with fault injection: generated rule histories x crash/IO-fault points x restarts against "
+               "an acknowledged-set reference model; full stack (swarm, gated listener, upgrader, Noise|TLS, yamux) on simnet, "
+               "lock-level scheduling; direct hook sweep over address forms"),
     design_ref="DESIGN.md section 6 (C10)",
     quick_s=50, thorough_s=600,
-    rule="TBD",
-    probes=[],
-    real=[], stubs=[], assume=[],
+    rule=("one run = one tape: stratum full-stack (3/4) | hooks-direct (1/4); full-stack: link whole|fragmented, security "
+          "noise|tls, host IPs of P and Q and two decoy IPs from a 20-address pool on the subnet edges, 3-10 steps of dial round "
+          "(subset of G->P, P->G, G->Q, Q->G run concurrently; per outbound dial a subset of the address forms, optional decoy) | "
+          "Block/Unblock call (fault: none | process stop after the datastore mutation | I/O error) | clean restart, and a final "
+          "round; hooks-direct: 3-20 calls/restarts with a hook sweep after each. Every restart may hit an I/O error in one of "
+          "the three load queries first. non-trivial = at least one Block was acknowledged and at least one oracle evaluation "
+          "with a definite expectation followed; distinct = distinct (stratum, security, hosts, sequence of calls with outcomes, "
+          "rounds with dial results and connection counts) x schedule hash"),
+    probes=["stratum-full-stack", "stratum-hooks-direct", "security-noise", "security-tls",
+            "refused-PeerDial", "refused-AddrDial", "refused-AddrDial-ip4", "refused-AddrDial-ip6", "refused-AddrDial-ip6-mapped",
+            "refused-Accept", "refused-Secured-inbound", "inbound-from-blocked-addr", "inbound-from-blocked-subnet",
+            "inbound-from-blocked-peer", "round-with-blocked-remote", "connected-after-unblock", "survivor-conn-while-blocked",
+            "stop-in-BlockPeer", "stop-in-UnblockPeer", "stop-in-BlockAddr", "stop-in-UnblockAddr", "stop-in-BlockSubnet",
+            "stop-in-UnblockSubnet", "io-error-in-BlockPeer", "io-error-in-UnblockPeer", "io-error-in-BlockAddr",
+            "io-error-in-UnblockAddr", "io-error-in-BlockSubnet", "io-error-in-UnblockSubnet", "io-error-in-load",
+            "reopen-clean", "reopen-after-stop", "dial-form-dns", "dial-form-ip6-mapped", "dial-with-decoy", "host-ipv6",
+            "mapped-source", "direct-blocked-ip4", "direct-blocked-ip6", "direct-blocked-ip6-mapped", "direct-blocked-ip6zone",
+            "direct-no-ip-form",
+            "host-at-v4-first-of-26", "host-at-v4-last-of-26", "host-at-v4-below-26", "host-at-v4-above-26",
+            "host-at-v4-first-of-24", "host-at-v4-last-of-24", "host-at-v4-below-24", "host-at-v4-above-24",
+            "host-at-v6-first-of-122", "host-at-v6-last-of-122", "host-at-v6-below-122", "host-at-v6-above-122",
+            "host-at-v6-first-of-64", "host-at-v6-last-of-64", "host-at-v6-below-64", "host-at-v6-above-64"],
+    real=["ALL of the following run as tasks of the seeded scheduler (instrumented: every lock, channel operation, select, go statement is a scheduling point)",
+          "p2p/net/conngater BasicConnectionGater (Block*/Unblock*/List*/loadRules/Intercept*) on go-datastore namespace + query code",
+          "swarm (dialPeer, addrsForDial incl. DNS resolution step, filterKnownUndialables, dial worker, addConn, notifications)",
+          "tcp transport dial path (WithDialerForAddr)", "upgrader + gated listener (InterceptAccept, InterceptSecured call sites)",
+          "noise, tls", "multistream-select", "yamux", "pstoremem", "eventbus"],
+    stubs=["wire: simnet TCP model", "disk: simdisk wrapper around MapDatastore (process stop after a mutation, I/O error on an operation)",
+           "DNS: fake MultiaddrDNSResolver mapping p.test/q.test to the hosts' IPs (dns6 of an IPv4 host yields the IPv4-mapped form)",
+           "a delegating recorder around the real gater (counts refusals, compares each live answer with the model)",
+           "null resource manager; no basic host / identify on the nodes"],
+    assume=["virtual clock of testing/synctest", "5 virtual seconds after the dials returned exceed every dial-ranking delay on these paths",
+            "a rule change happens only while no dial or accept is in flight (quiescence), so 'admitted after the rule took force' is decidable per round"],
 )
